@@ -77,3 +77,28 @@ CLAIMED["C19"] = (
  "metamorphic property testing: a language-neutral case rendered with each language's words must evaluate to the same value; printed dates/durations parsed back with the language's own word lists",
  "Operator words, duration words, day keywords, month names (every configured spelling, exhaustive table), date arithmetic and differences rendered per language from config.json tables keyed by operator / constant id / month number, and word-free lines (arithmetic, percentages, money, variables) evaluated unchanged in every configured language; values must be exactly equal and outputs must use the language's own words.",
  _note_common, "DESIGN.md section 5, C19")
+
+# ---- additions made after the first build (see DESIGN.md sections 8 and 9): (technique suffix, text suffix) ----
+ADDENDA = {
+ "C01": ("; families: Unicode, token soup, mutated valid lines, failing-assignment scripts, long repetitive lines; thorough tier adds a libFuzzer campaign (cargo-fuzz target c01_total, dictionary from the vocabulary) behind the same oracle",
+         " Two further families: mutated valid lines of every other generator (token deleted / duplicated / swapped / glued, numbers replaced by extremes), scripts of assignments that fail at parse or evaluation time followed by uses, and long repetitive lines of several hundred tokens. The thorough tier adds a 10-minute libFuzzer campaign on the same oracle; a case that kills the process (stack overflow) is found by the supervisor through the per-thread case journal."),
+ "C03": ("; names incl. non-ASCII letters", " Eight names, two with non-ASCII letters; the first binding is written in a random letter case too."),
+ "C04": ("; related histories (variants of the probe, also under the other language); repeated set_text of an equal text; second session reference without the failed lines",
+         " Related histories: the texts before the probe are variants of the probe itself (same sentence, operands 0, 1, 0.5, 1e9 ..., also evaluated under the other language). Session histories also set an equal text again, and are compared with a second reference: the same history without the lines that failed to evaluate."),
+ "C05": ("; metamorphic: operands held in variables", " Two cases in five are evaluated again with X and/or p held in variables bound on earlier lines; the result must be exactly the same."),
+ "C06": ("", " Histories also update currencies without a shipped rate (aed, cad) and convert with them afterwards."),
+ "C08": ("; the same pair on ONE calculator re-configured through the setters", " Every pair is also evaluated on one calculator that is re-configured through the setters between the evaluations, each text being read once under the other convention in between."),
+ "C09": ("; default zones and separator conventions as extra dimensions", " A third of the cases run under a non-UTC default zone, a quarter under another separator convention; month names of the shipped languages are a fixed table of the harness."),
+ "C10": ("", " 'as' conversions are generated for sequences of up to seven parts."),
+ "C11": ("", " Durations range from seconds to millennia (beyond 2^32 seconds)."),
+ "C13": ("; glued operators; conversion of a variable computed from a based literal", " Operators are also written without blanks; a value computed from a based literal and held in a variable is converted like any other N."),
+ "C14": ("; day-independent relations for 'T as unix'", " 'T as unix' is additionally checked by two relations that do not depend on which calendar day today is: seconds since '0:00 as unix' in the same zone = T's wall-clock seconds, and a bare time under default zone Z = the same time written with Z."),
+ "C15": ("; user-defined unit families", " Unit quantities of user-defined families registered with the built-in print/parse convention (also with non-ASCII letters and with the unit word first) are included."),
+ "C16": ("", " Variables that are bound, re-bound and used with each occurrence cased independently, and every zone key of the table as configured (also the ones the zone syntax cannot express), are included."),
+ "C17": ("; thorough tier adds a libFuzzer campaign (target c17_spans); user-defined unit families", " In free text the first '#' of a line starts one Comment token reaching the end of the line; lines with unit quantities of user-defined families (unit word after or before the value) are checked for the exact Number span. The thorough tier adds a 10-minute libFuzzer campaign on the same predicate."),
+ "C18": ("", " Families start at index 0, 1 or 3; rule patterns also use operator words of the rule's own language (times/minus, kere/eksi)."),
+ "C19": ("; fixed operator-word and month-name tables for the shipped languages; one session switched between languages", " The word tables of en and tr are constants of the harness (a configuration mapping a word to the wrong operator is not believed); ASCII operator words are also written in upper case / capitalised; every case is also run through one session object switched en -> tr -> en."),
+}
+for _k, (_t, _x) in ADDENDA.items():
+    _a = CLAIMED[_k]
+    CLAIMED[_k] = (_a[0] + _t, _a[1] + _x, _a[2], _a[3])
